@@ -14,9 +14,9 @@ DUE = ["before_next=30", "next_hours=24"]
 RENEW = ["roa_reissue=60", "aspa_reissue=60", "bgpsec_reissue=60"]
 QUICK = [("default", 6, 14, ["profile=maint"]), ("due", 10, 14, DUE + ["profile=maint"]),
          ("renew", 6, 12, RENEW + ["profile=maint"]), ("rolldue", 6, 16, DUE + ["profile=roll,maint"])]
-THOROUGH = [("default", 120, 30, ["profile=maint"]), ("due", 240, 30, DUE + ["profile=maint"]),
-            ("renew", 120, 30, RENEW + ["profile=maint"]), ("rolldue", 160, 40, DUE + ["profile=roll,maint"]),
-            ("rollrenew", 80, 40, RENEW + ["profile=roll,maint"]), ("plain", 80, 30, [])]
+THOROUGH = [("default", 90, 30, ["profile=maint"]), ("due", 170, 30, DUE + ["profile=maint"]),
+            ("renew", 90, 30, RENEW + ["profile=maint"]), ("rolldue", 110, 40, DUE + ["profile=roll,maint"]),
+            ("rollrenew", 60, 40, RENEW + ["profile=roll,maint"]), ("plain", 40, 30, [])]
 
 ASSUME = [
     "the wall clock is not controlled: 'due' is reached through the timing configuration (margins larger than lifetimes, set "
